@@ -6,6 +6,7 @@
 #define BPP_GRAPH_TREEGRAPHIMPL_H
 
 #include <iostream>
+#include <map>
 #include <ostream>
 #include <string>
 #include <vector>
@@ -599,38 +600,38 @@ Graph::NodeId TreeGraphImpl<GraphImpl>::MRCA(const std::vector<Graph::NodeId>& n
   if (nbnodes == 1)
     return nodes[0];
 
-  // Forward counts
-  auto fathers = std::make_shared<std::map<Graph::NodeId, unsigned int>>();
-  auto sons = std::make_shared<std::map<Graph::NodeId, unsigned int>>();
-
-  for (auto nodeid:nodes)
+  // the ancestors of the first node, itself first, up to the root, with their rank in this line
+  std::vector<Graph::NodeId> line;
+  std::map<Graph::NodeId, size_t> rank;
+  Graph::NodeId up = nodes[0];
+  rank[up] = 0;
+  line.push_back(up);
+  while (hasFather(up))
   {
-    (*sons)[nodeid] = 1;
+    up = getFatherOfNode(up);
+    rank[up] = line.size();
+    line.push_back(up);
   }
 
-  while (sons->size() > 1)
+  // each other node is climbed from until this line is joined: the most recent common
+  // ancestor is the highest of the joining points (a node is an ancestor of itself)
+  size_t mrca = 0;
+  for (size_t i = 1; i < nbnodes; ++i)
   {
-    // From sons to fathers
-    for (auto son:(*sons))
+    Graph::NodeId here = nodes[i];
+    std::map<Graph::NodeId, size_t>::const_iterator joined = rank.find(here);
+    while (joined == rank.end())
     {
-      Graph::NodeId here = (!hasFather(son.first)) ? son.first : getFatherOfNode(son.first);
-
-      if (fathers->find(here) == fathers->end())
-        (*fathers)[here] = son.second;
-      else
-        (*fathers)[here] += son.second;
-
-      if ((*fathers)[here] == nbnodes)
-        return here;
+      if (!hasFather(here))
+        throw Exception("TreeGraphImpl::MRCA not found");
+      here = getFatherOfNode(here);
+      joined = rank.find(here);
     }
-
-    auto temp = sons;
-    sons = fathers;
-    fathers = temp;
-    fathers->clear();
+    if (joined->second > mrca)
+      mrca = joined->second;
   }
 
-  throw Exception("TreeGraphImpl::MRCA not found");
+  return line[mrca];
 }
 }
 #endif // BPP_GRAPH_TREEGRAPHIMPL_H
